@@ -169,6 +169,9 @@ func genOctet(rng *rand.Rand) string {
 	if rng.IntN(8) == 0 {
 		return genWrapNumber(rng, 10)
 	}
+	if v, ok := dictInt(rng, 0, 1<<20); ok && rng.IntN(10) == 0 {
+		return fmt.Sprint(v)
+	}
 	return pick(rng, "0", "1", "9", "10", "99", "100", "199", "255", "256", "00", "01", "001", "300", "", "1a", fmt.Sprint(rng.IntN(256)))
 }
 
@@ -285,7 +288,7 @@ func genIPText(rng *rand.Rand) string {
 	default:
 		s = genV6(rng)
 	}
-	return mutate(rng, s, ipAlpha)
+	return dictMutate(rng, mutate(rng, s, ipAlpha), ":.%[]", 24)
 }
 
 func genIPPortText(rng *rand.Rand) string {
